@@ -15,7 +15,8 @@ import GoitModel.CmdsConfig
     re-synchronised from the observation): tracked paths occupied by directories, work-tree conflicts
     between a file and a directory of one name during `restore`/`reset --hard`, `.goitignore` lines with
     non-printable bytes, flag spellings other than the ones listed in `parseArgv`, invocations before `init`
-    in a directory that holds files named like Goit's own. The clock is an input (`ts`). -/
+    in a directory that holds files named like Goit's own, configuration files holding Unicode white space (Go's
+    `TrimSpace` is modelled for ASCII). The clock is an input (`ts`). -/
 
 namespace W
 
@@ -114,8 +115,11 @@ def loadHead (H : HashFn) (w : World) : Option (Bytes × Option (Bytes × Commit
     match Head.parse h with
     | none => none
     | some b =>
+      if List.elem (0 : UInt8) b then none else      -- a NUL in the path: `os.Stat` fails with EINVAL, the branch cannot be read
       match aget w.heads b with
-      | none => some (b, none)
+      | none =>
+        -- a name with `/` below an existing branch *file*: `os.Stat` fails with ENOTDIR, which is not "does not exist"
+        if (Cmds.dirPrefixes b).any (fun p => (aget w.heads p).isSome) then none else some (b, none)
       | some raw =>
         match readHash raw with
         | none => none
